@@ -161,3 +161,14 @@ def extents_from_model(model, names, default=2, cap=4):
 def perms(keys, limit=None):
     ps = list(itertools.permutations(keys))
     return ps if limit is None else ps[:limit]
+
+
+def dep_jobs(modname, pred=lambda fn, kw: True, tier="quick"):
+    """jobs of ANOTHER property's module that this property's argument depends on (leaf contracts, the library action ==
+    act_spec).  Verification is modular: a composite property is proved against the contracts of the functions it calls, so
+    a defect inside a callee breaks the callee's obligation, not the composite's.  Running the callee obligations that the
+    composite relies on as part of the composite's check makes the check self-contained: `./check C07` fails when a layer
+    contract it uses fails.  The obligations keep the names of the property that owns them."""
+    import importlib
+    mod = importlib.import_module(modname)
+    return [j for j in mod.jobs(tier) if pred(j[1], j[2])]
